@@ -185,3 +185,22 @@ package control
 //@   ensures result <==> (len(a) == len(b) && (forall i int :: 0 <= i && i < len(a) ==> a[i] == b[i]))
 //@   loop 1
 //@     invariant len(a) == len(b) && (forall k int :: 0 <= k && k < $idx ==> a[k] == b[k])
+
+// C18 (re-route step): the first target is computed for the outbound the kernel handed over; when the
+// flow is routed again (domain++ / genuine domain / control-plane routing) the target is recomputed for
+// the outbound that the routing decision just produced, with the same destination and sniffed name.
+//@ func (*ControlPlane).chooseProxyDialer
+//@   anchorsonly
+//@   modifies *
+//@   at call ChooseDialTarget#1 assert a1 == p.Outbound && a2 == p.Dest && a3 == p.Domain
+//@   at call Route#1 assert outboundIndex == consts.OutboundControlPlaneRouting && a1 == p.Src && a2 == p.Dest && a3 == p.Domain
+//@   at call ChooseDialTarget#2 assert a1 == outboundIndex && a2 == dst && a3 == domain
+
+// C18 (genuineness window): DNS knowledge is remembered until the record's own TTL runs out, not until a
+// configured fixed TTL does.
+//@ func (*DnsController).__updateDnsCacheDeadline
+//@   anchorsonly
+//@   dyncalls noeffect
+//@   modifies *
+//@   at call rememberDnsKnowledge#1 assert a1 == baseKey && a2 == originalDeadline
+//@   at call prepackResponseBeforeStore#1 assert a1 == fqdn && a2 == dnsTyp
